@@ -317,6 +317,8 @@ class IntroVisitor(ast.NodeVisitor):
         self._input_sig = function_input_sig
         self._call_stack = call_stack
         self._store_names: Set[LocalVar] = {current_fun_name}
+        # The attribute nodes that are the callee of a call (handled by visit_Call)
+        self._call_heads: Set[int] = set()
         self.inters: List[FunctionInteractions] = []
         self.load_paths: List[DDSPath] = []
 
@@ -371,6 +373,7 @@ class IntroVisitor(ast.NodeVisitor):
                     f"Call stack: {' '.join([str(p) for p in self._call_stack])}"
                 )
             self.load_paths.append(fi_or_p)
+        self._call_heads.add(id(node.func))
         self.visit(node.func)
         for a in arg_nodes:
             if not any(a is e for e in early_args):
@@ -434,6 +437,44 @@ class IntroVisitor(ast.NodeVisitor):
                 if fi_or_p is not None and isinstance(fi_or_p, str):
                     self.load_paths.append(fi_or_p)
 
+        self.generic_visit(node)
+
+    def visit_Attribute(self, node: ast.Attribute) -> Any:
+        # A function that is mentioned (not called) through a module: `map(mod.fun, xs)`.
+        # It is handled like a function mentioned by its name (see visit_Name).
+        names = _function_name(node)
+        dotted = LocalVar(".".join(names))
+        if (
+            id(node) not in self._call_heads
+            and isinstance(self._start_mod.__dict__.get(names[0]), ModuleType)
+            and LocalVar(names[0]) not in self._function_var_names
+            and dotted not in self._store_names
+        ):
+            self._store_names.add(dotted)
+            z = ObjectRetrieval.retrieve_object(
+                LocalDepPath(PurePosixPath("/".join(names))), self._start_mod, self._gctx
+            )
+            if isinstance(z, AuthorizedObject) and isinstance(
+                z.object_val, FunctionType
+            ):
+                call_node = ast.Call(func=node, args=[], keywords=[])
+                function_body_hash = dds_hash(self._body_lines[: node.lineno + 1])
+                function_inters_sig: Optional[PyHash] = dds_hash_commut(
+                    _fis_to_siglist(self.inters)
+                )
+                fi_or_p = InspectFunction.inspect_call(
+                    call_node,
+                    self._gctx,
+                    self._start_mod,
+                    function_body_hash,
+                    self._input_sig,
+                    function_inters_sig,
+                    self._function_var_names,
+                    self._call_stack,
+                )
+                if fi_or_p is not None and isinstance(fi_or_p, FunctionInteractions):
+                    self.inters.append(fi_or_p)
+                return
         self.generic_visit(node)
 
     @staticmethod
